@@ -372,6 +372,72 @@ CONTRACTS += [
 ]
 
 
+# -- R1C1 relative/absolute decoding (closure of r1c1_boundaries) -----------------------
+
+def r2a_shape(r1_or_c1, cell, n):
+    """What the regex R(\\[-?\\d+\\]|\\d+)? / C(...)? can hand over (A-RE, trusted):
+    the bare letter, letter + digits, or letter + [signed digits]; n is the
+    number written (ghost parameter)."""
+    letter = r1_or_c1[0:1]
+    return (valid_cell(cell) and (letter == 'R' or letter == 'C') and
+            (r1_or_c1 == letter or
+             (n >= 0 and r1_or_c1 == letter + str(n)) or
+             r1_or_c1 == letter + '[' + str(n) + ']'))
+
+
+def post_r2a(r1_or_c1, cell, n, result):
+    letter = r1_or_c1[0:1]
+    is_row = letter == 'R'
+    anchor = cell.row if is_row else cell.col_idx
+    limit = MAX_ROW if is_row else MAX_COL
+    if r1_or_c1 == letter:
+        return result == anchor
+    if r1_or_c1.endswith(']'):
+        # relative: same as the offset functions inc_row / inc_col
+        return 1 <= result <= limit and (result - (anchor + n)) % limit == 0
+    return result == n
+
+
+def call_r2a(r1_or_c1, cell, n, pos='min'):
+    """native replay: reach the closure through the enclosing function, as
+    the first corner (pos='min') or as the second corner of a range ('max')"""
+    from pycel.excelutil import r1c1_boundaries
+    if pos == 'min':
+        if r1_or_c1[0] == 'R':
+            return r1c1_boundaries(r1_or_c1 + 'C1', cell=cell)[0][1]
+        return r1c1_boundaries('R1' + r1_or_c1, cell=cell)[0][0]
+    if r1_or_c1[0] == 'R':
+        return r1c1_boundaries('R1C1:' + r1_or_c1 + 'C1', cell=cell)[0][3]
+    return r1c1_boundaries('R1C1:R1' + r1_or_c1, cell=cell)[0][2]
+
+
+# -- sheet names -------------------------------------------------------------------------
+
+def sheet_ok(sheet):
+    return True
+
+
+def post_quote_unquote(sheet, result):
+    """unquote_sheetname inverts quote_sheet"""
+    return unquote(result) == sheet
+
+
+def unquote(s):
+    from pycel.excelutil import unquote_sheetname
+    return unquote_sheetname(s)
+
+
+# The closure contract (r2a_shape / post_r2a) is NOT discharged deductively: the
+# obligation mixes str.substr with int(str) and stays `unknown` in z3 5.1, cvc5
+# and z3 4.8 (8 minutes, no answer).  It is therefore checked by the bounded
+# stand-in below (labelled bounded, never counted as proved).
+R2A_BOUNDED = Contract('pycel.excelutil:r1c1_boundaries.from_relative_to_absolute', 'C11',
+                       params=dict(r1_or_c1=Str(), cell=cell_dom(), n=Int()), free_vars=['cell'],
+                       requires=[r2a_shape], ensures=[post_r2a], native_call='call_r2a',
+                       klass='BOUNDED',
+                       notes='str.substr + int(str) obligation unknown in z3 5.1 / cvc5 / z3 4.8 after 8 min')
+
+
 # -- property lemmas (over the contracts only; callee bodies are not used) ------------
 
 def same(x, y):
@@ -512,3 +578,101 @@ LEMMAS = [
     Lemma('offset_full_turn', 'C11', dict(a=cell_dom(), r1=Int(), c1=Int(), r2=Int(), c2=Int()),
           lem_offset_wraps, requires=[offsets_pre], modular=[OFFSET]),
 ]
+
+
+# -- bounded stand-in (native; never counted as proved) -----------------------------------
+
+def bounded(tier, seed, R):
+    import random
+    from pycel.excelutil import AddressCell, AddressRange
+    rnd = random.Random(seed)
+    R.rule = ('parse/print round trip: every column 1..16384 x boundary rows x {plain, quoted sheet, '
+              'absolute} for cells, boundary rectangles for ranges; R1C1 decode: boundary offsets x '
+              'boundary anchor cells against post_r2a; distinct = distinct (obligation, input)')
+    rows = [1, 2, 9, 10, 99, 1048575, 1048576]
+    cols = range(1, MAX_COL + 1) if tier == 'thorough' else \
+        sorted(set(list(range(1, 800)) + [MAX_COL, MAX_COL - 1, 16383, 702, 703, 18278 // 2] +
+                   [rnd.randint(1, MAX_COL) for _ in range(300)]))
+    sheets = ['', 'Sheet1', 'My Sheet', "O'Brien s", 'a!b', "it's"]
+    R.bound = f'columns={len(cols)} rows={rows} sheets={sheets}'
+    for col in cols:
+        for row in rows:
+            for sheet in (sheets if col % 97 == 1 or tier == 'thorough' and col % 7 == 0 else sheets[:2]):
+                w = {'col': col, 'row': row, 'sheet': sheet}
+
+                def chk():
+                    a = AddressCell((col, row, col, row), sheet=sheet)
+                    ok = AddressRange.create(a.address) == a if '!' not in sheet and "'" not in sheet else True
+                    ok = ok and AddressRange.create(a.quoted_address) == a
+                    ok = ok and AddressRange.create(a.abs_address) == a
+                    ok = ok and AddressCell(a.coordinate, sheet=sheet) == a
+                    ok = ok and a.col_idx == col and a.row == row
+                    return ok
+                R.guard('bounded/print_parse_roundtrip[cell]', chk, w)
+    # ranges: boundary rectangles
+    edges_c = [1, 2, 26, 27, 702, 703, MAX_COL - 1, MAX_COL]
+    edges_r = [1, 2, 10, 1048575, MAX_ROW]
+    for c0 in edges_c:
+        for c1 in edges_c:
+            for r0 in edges_r:
+                for r1 in edges_r:
+                    if c0 > c1 or r0 > r1 or (c0 == c1 and r0 == r1):
+                        continue
+                    for sheet in ('', 'My Sheet'):
+                        w = {'rect': [c0, r0, c1, r1], 'sheet': sheet}
+
+                        def chk():
+                            a = AddressRange((c0, r0, c1, r1), sheet=sheet)
+                            return (AddressRange.create(a.quoted_address) == a and
+                                    AddressRange.create(a.abs_address) == a and
+                                    AddressRange(a.coordinate, sheet=sheet) == a and
+                                    a.size == (r1 - r0 + 1, c1 - c0 + 1))
+                        R.guard('bounded/print_parse_roundtrip[range]', chk, w)
+    # unbounded forms print and parse back
+    for text in ('A:A', 'A:C', '1:1', '3:7', 'XFD:XFD', '1048576:1048576'):
+        for sheet in ('', 'My Sheet'):
+            def chk():
+                a = AddressRange(text, sheet=sheet)
+                return AddressRange.create(a.quoted_address) == a and a.is_unbounded_range
+            R.guard('bounded/print_parse_roundtrip[unbounded]', chk, {'text': text, 'sheet': sheet})
+    # R1C1 decode against the closure contract, and A1 / R1C1 / tuple agreement
+    offs = [0, 1, -1, 2, 7, 16383, 16384, -16384, 1048575, 1048576, -1048576, 1048577, 99999999, -99999999]
+    anchors = [(1, 1), (2, 3), (MAX_COL, MAX_ROW), (MAX_COL, 1), (1, MAX_ROW), (27, 100)]
+    for (ac, ar) in anchors:
+        cell = AddressCell((ac, ar, ac, ar), sheet='s')
+        for letter in 'RC':
+            forms = [letter] + [f'{letter}{n}' for n in (1, 2, 10, 16384, 1048576)] + \
+                    [f'{letter}[{n}]' for n in offs]
+            for f in forms:
+                n = int(f[2:-1]) if f.endswith(']') else (int(f[1:]) if len(f) > 1 else 0)
+                if not f.endswith(']') and len(f) > 1 and n > (MAX_ROW if letter == 'R' else MAX_COL):
+                    continue
+                for pos in ('min', 'max'):
+                    w = {'r1_or_c1': f, 'anchor': [ac, ar], 'n': n, 'pos': pos}
+                    R.guard('r1c1_boundaries.from_relative_to_absolute/post#0:post_r2a',
+                            lambda: post_r2a(f, cell, n, call_r2a(f, cell, n, pos)), w)
+        for (c, r) in [(1, 1), (5, 9), (MAX_COL, MAX_ROW)]:
+            def chk():
+                t = AddressCell((c, r, c, r), sheet='s')
+                a1 = AddressCell(t.coordinate, sheet='s')
+                rc = AddressRange.create(f'R{r}C{c}', sheet='s', cell=cell)
+                rel = AddressRange.create(f'R[{r - ar}]C[{c - ac}]', sheet='s', cell=cell)
+                return t == a1 == rc == rel
+            R.guard('bounded/a1_r1c1_tuple_agree', chk, {'cell': [c, r], 'anchor': [ac, ar]})
+
+
+# -- witness classes of known findings (see /verif/known_findings.json) -------------------
+
+def kf_sheet_with_bang(w):
+    return '!' in w.get('sheet', '')
+
+
+BOUNDED_FUNCTIONS = [R2A_BOUNDED]
+LEVEL = 'proof'
+EXPLANATION = ('Contracts on the address classes of pycel.excelutil, discharged path by path by z3 over the real '
+               'source text (constructors, size, containment, enumeration, offsets, intersection/union) plus '
+               'property lemmas proved from the contracts alone (lattice laws, offset composition). The A1 text '
+               'parser (openpyxl range_boundaries / get_column_letter, regex based) is trusted (A-COLLETTER) and '
+               'covered by the bounded stand-in; the R1C1 closure is bounded only.')
+ASSUMPTIONS = ['A-SUBSET: pyvc encoding of the accepted Python subset is faithful (cross-checked by replay of '
+               'counterexamples and by the mutation corpus)']
